@@ -17,20 +17,40 @@ use crate::Parser;
 
 type I8 = SymIn<u8>;
 
-/// The memoized parser of the harness: a contract stub that first records (ghost) what the memo table
-/// says about this very attempt while it runs.
-#[derive(Clone, Copy)]
-pub struct Probe<Er: 'static> {
+// None of the obligations below depends on HOW the library identifies a memoized parser (today: the address
+// of the wrapped parser): the table is observed through the library's own behaviour (re-entering the parser,
+// trying it again) and through the number of bindings, never by recomputing a key. A different identity scheme
+// that keeps the property keeps these proofs.
+
+const FAR: (usize, usize) = (usize::MAX, usize::MAX - 7);
+
+/// The memoized parser of the re-entry harness: on its first invocation it re-enters the memoized parser it
+/// is wrapped in, at the same position (what a left-recursive grammar does), records (ghost) what that
+/// re-entry did, and then behaves as a contract stub.
+pub struct Reenter<Er: 'static> {
     pub inner: AnyP<I8, X<Er>>,
+    pub outer: *const Memoized<Reenter<Er>>,
 }
-impl<Er: VEr> Parser<'static, I8, u16, X<Er>> for Probe<Er> {
+impl<Er: VEr> Parser<'static, I8, u16, X<Er>> for Reenter<Er> {
     fn go<M: Mode>(&self, inp: &mut InputRef<'static, '_, I8, X<Er>>) -> PResult<M, u16> {
-        let key = (inp.cursor, self as *const _ as *const () as usize);
-        inp.state.reg[0] = match inp.memos.get(&key) {
-            None => 1,
-            Some(None) => 2,
-            Some(Some(_)) => 3,
-        };
+        if inp.state.reg[0] == 0 && !self.outer.is_null() {
+            inp.state.reg[0] = 1; // re-enter once only
+            let (pos0, sec0, calls0) = (inp.cursor, inp.errors.secondary.len(), inp.state.log[self.inner.slot].calls);
+            inp.errors.alt = None; // so that what the re-entry leaves pending is its own
+            // SAFETY (harness): points at the memoized parser in the harness frame, which outlives the parse
+            let r = unsafe { (*self.outer).go::<M>(inp) };
+            let st = &mut inp.state;
+            st.reg[1] = if r.is_err() { 1 } else { 2 };
+            st.reg[2] = if inp.cursor == pos0 && inp.errors.secondary.len() == sec0 { 1 } else { 2 };
+            st.reg[3] = if st.log[self.inner.slot].calls == calls0 && st.reg[0] == 1 { 1 } else { 2 };
+            st.reg[4] = if inp.errors.alt.is_some() { 1 } else { 2 };
+            st.reg[5] = match &inp.errors.alt {
+                Some(a) if a.pos >= pos0 => 1,
+                _ => 2,
+            };
+            inp.errors.alt = None;
+            inp.cursor = pos0;
+        }
         self.inner.go::<M>(inp)
     }
     fn go_emit(&self, inp: &mut InputRef<'static, '_, I8, X<Er>>) -> PResult<Emit, u16> {
@@ -41,124 +61,110 @@ impl<Er: VEr> Parser<'static, I8, u16, X<Er>> for Probe<Er> {
     }
 }
 
-/// Symbolic pre-state of the memo table and the call under contract. `pre`: what the table says about
-/// this (position, parser) at entry: 0 = unbound (first attempt), 1 = bound to the failure recorded by an
-/// earlier attempt at this position, 2 = bound to "in progress" (the parser is re-entered: left recursion).
-pub struct MemoRun {
-    pub s: Snap,
-    pub a: CallLog,
-    pub r_ok: bool,
-    pub out_ok: bool,
-    /// binding of the key afterwards: 0 none, 1 in progress, 2 a recorded failure
-    pub bound: usize,
-    pub stored: Option<(usize, u16)>,
-    pub seen_by_parser: usize,
-    pub rec_pos: usize,
-    pub frame_ok: bool,
-}
-fn memo_run<M: VMode, Er: VEr>(inp: &mut IR<'_, u8, Er>, s0: &S0, pre: usize) -> MemoRun {
-    let p: Memoized<Probe<Er>> = Probe { inner: anyp::<I8, X<Er>>(0) }.memoized();
-    let key = (s0.pos, &p.parser as *const _ as *const () as usize);
-    // an unrelated binding: the frame of the table
-    let other = (ch::any_usize(), ch::any_usize());
-    ch::assume(other != key);
-    let had_other = ch::any_bool();
-    if had_other {
-        inp.memos.insert(other, None);
-    }
-    // the failure an earlier attempt at this position recorded
-    let rec_pos = s0.pos + ch::below(s0.len - s0.pos);
-    if pre == 1 {
-        inp.memos.insert(key, Some(Located::at(rec_pos, Er::mk(77, rec_pos, rec_pos))));
-    }
-    if pre == 2 {
-        inp.memos.insert(key, None);
-    }
-    let r = p.gov::<M>(inp);
-    let s = snap(inp);
-    let a = lg(inp, 0);
-    let bound = match inp.memos.get(&key) {
-        None => 0usize,
-        Some(None) => 1,
-        Some(Some(_)) => 2,
-    };
-    let stored = match inp.memos.get(&key) {
-        Some(Some(l)) => Some((l.pos, l.err.id())),
-        _ => None,
-    };
-    let frame_ok = if had_other { matches!(inp.memos.get(&other), Some(None)) } else { inp.memos.get(&other).is_none() };
-    MemoRun { s, a, r_ok: r.is_ok(), out_ok: ok_with::<M, _>(&r, a.out), bound, stored, seen_by_parser: inp.state.reg[0], rec_pos, frame_ok }
-}
-
-/// First attempt at this position: the memoized parser is its parser.
+/// A memoized parser tried at a position for the first time: it IS its parser; the table gains one binding
+/// iff the attempt failed (the recorded failure), none otherwise; bindings of others are untouched.
 pub fn h_memoized_first<M: VMode, Er: VEr>() {
     run::<u8, Er, (), _>(|inp, s0| {
-        let m = memo_run::<M, Er>(inp, &s0, 0);
-        let (s, a) = (m.s, m.a);
+        let p = anyp::<I8, X<Er>>(0).memoized();
+        let had_other = ch::any_bool();
+        if had_other {
+            inp.memos.insert(FAR, None);
+        }
+        let n0 = inp.memos.len();
+        let r = p.gov::<M>(inp);
+        let s = snap(inp);
+        let a = lg(inp, 0);
+        let n1 = inp.memos.len();
         vassert!(a.called && a.calls == 1 && a.entry_pos == s0.pos && a.entry_sec == s0.nsec && a.entry_believed == s0.pos,
             "C11/memoized.first-attempt-runs-the-parser-once-from-the-caller-state");
-        vassert!(m.seen_by_parser == 2, "C11/memoized.attempt-is-marked-in-progress-while-the-parser-runs");
-        vassert!(m.r_ok == a.ok, "C11/memoized.same-acceptance-as-the-parser");
+        vassert!(r.is_ok() == a.ok, "C11/memoized.same-acceptance-as-the-parser");
         if a.ok {
             vcover!(true, "memoized: first attempt succeeds");
-            vassert!(m.out_ok, "C11/memoized.same-output-as-the-parser");
+            vassert!(ok_with::<M, _>(&r, a.out), "C11/memoized.same-output-as-the-parser");
             vassert!(s.pos == a.exit_pos, "C11/memoized.same-consumption-as-the-parser");
             vassert!(s.believed == s.pos, "C18/memoized.inspector-at-position-after-success");
             vassert!(SecSpec::pre(&s0).child(0, &a).holds(&s, Er::ZST), "C05/memoized.kept-emissions-exact");
-            vassert!(m.bound == 0, "C11/memoized.success-leaves-no-binding-behind");
+            vassert!(n1 == n0, "C11/memoized.success-leaves-no-binding-behind");
         } else {
             vcover!(true, "memoized: first attempt fails");
             vassert!(SecSpec::pre(&s0).prefix_of(&s, Er::ZST), "C05/memoized.failure-keeps-earlier-emissions");
             vassert!(s.alt.is_some(), "C20/memoized.failure-leaves-pending-error");
-            vassert!(m.bound == 2, "C11/memoized.failure-is-recorded-for-later-attempts");
-            if !Er::ZST {
-                // what the parser's failure left pending: the furthest of (pending at entry, its offer)
-                vassert!(Offers::of(&s0, &[&a]).max_pos() == m.stored.map(|x| x.0),
-                    "C11/memoized.recorded-failure-is-the-error-pending-after-the-parser-failed");
-            }
+            vassert!(n1 == n0 + 1, "C11/memoized.failure-is-recorded-for-later-attempts");
         }
         if !Er::ZST {
             vassert!(Offers::of(&s0, &[&a]).matches(&s), "C11/memoized.same-pending-error-as-the-parser");
         }
-        vassert!(m.frame_ok, "C11/memoized.other-bindings-untouched");
+        vassert!(inp.memos.get(&FAR).is_some() == had_other, "C11/memoized.other-bindings-untouched");
     });
 }
-/// A later attempt at a position where this parser already failed: the recorded failure is replayed.
-pub fn h_memoized_replay<M: VMode, Er: VEr>() {
-    run::<u8, Er, (), _>(|inp, s0| {
-        let m = memo_run::<M, Er>(inp, &s0, 1);
-        let s = m.s;
-        vcover!(true, "memoized: recorded failure replayed");
-        vcover!(m.rec_pos > s0.pos, "memoized: recorded failure lies beyond the start");
-        vassert!(!m.a.called, "C11/memoized.recorded-outcome-is-not-recomputed");
-        vassert!(!m.r_ok, "C11/memoized.recorded-failure-fails-again");
-        vassert!(s.nsec == s0.nsec, "C05/memoized.replayed-failure-emits-nothing");
-        vassert!(s.alt.is_some(), "C20/memoized.replayed-failure-leaves-pending-error");
-        vassert!(m.bound == 2, "C11/memoized.record-kept-after-replay");
-        if !Er::ZST {
-            // re-running the parser would fail where it failed before: the recorded error is offered at
-            // its recorded position
-            vassert!(Offers::entry(&s0).at(m.rec_pos, 77).matches(&s), "C11/memoized.recorded-failure-replayed-at-its-position");
-        }
-        vassert!(m.frame_ok, "C11/memoized.replay-leaves-other-bindings-untouched");
-    });
-}
-/// Re-entry while the same parser is still running at the same position (the left-recursive step):
-/// fails at once, without running the parser again - the reason left recursion terminates.
+
+/// Re-entry while the same memoized parser is still running at the same position (the left-recursive
+/// step): it fails at once - nothing consumed, nothing emitted, a pending error not before the attempt - without
+/// running the parser again; the outer attempt then goes on as if nothing had happened.
 pub fn h_memoized_reentry<M: VMode, Er: VEr>() {
     run::<u8, Er, (), _>(|inp, s0| {
-        let m = memo_run::<M, Er>(inp, &s0, 2);
-        let s = m.s;
-        vcover!(true, "memoized: re-entered while in progress");
-        vassert!(!m.a.called, "C11/memoized.reentry-does-not-run-the-parser-again");
-        vassert!(!m.r_ok, "C11/memoized.reentry-fails");
-        vassert!(s.nsec == s0.nsec, "C05/memoized.reentry-emits-nothing");
-        vassert!(s.alt.is_some(), "C20/memoized.reentry-leaves-pending-error");
-        vassert!(m.bound == 1, "C11/memoized.in-progress-mark-kept-for-the-outer-attempt");
-        if let (Some((p, _)), false) = (s.alt, Er::ZST) {
-            vassert!(p >= s0.pos || s0.alt.map(|x| x.0 == p).unwrap_or(false), "C06/memoized.reentry-failure-not-before-the-attempt");
+        let mut p: Memoized<Reenter<Er>> = Reenter { inner: anyp::<I8, X<Er>>(0), outer: core::ptr::null() }.memoized();
+        let pp: *const Memoized<Reenter<Er>> = &p;
+        p.parser.outer = pp;
+        let alt0 = inp.errors.alt.take(); // (the probe isolates the re-entry's own pending error)
+        let _ = alt0;
+        let r = p.gov::<M>(inp);
+        let s = snap(inp);
+        let a = lg(inp, 0);
+        let st = &inp.state;
+        vcover!(st.reg[0] == 1, "memoized: re-entered while in progress");
+        vassert!(st.reg[0] == 1 && st.reg[1] == 1, "C11/memoized.reentry-fails");
+        vassert!(st.reg[3] == 1, "C11/memoized.reentry-does-not-run-the-parser-again");
+        vassert!(st.reg[2] == 1, "C05/memoized.reentry-consumes-and-emits-nothing");
+        vassert!(st.reg[4] == 1, "C20/memoized.reentry-leaves-pending-error");
+        if !Er::ZST {
+            vassert!(st.reg[5] == 1, "C06/memoized.reentry-failure-not-before-the-attempt");
         }
-        vassert!(m.frame_ok, "C11/memoized.reentry-leaves-other-bindings-untouched");
+        // the outer attempt is the parser's, as in a first attempt
+        vassert!(a.called && a.calls == 1 && a.entry_pos == s0.pos, "C11/memoized.outer-attempt-goes-on-after-the-reentry");
+        vassert!(r.is_ok() == a.ok && (!a.ok || (ok_with::<M, _>(&r, a.out) && s.pos == a.exit_pos)), "C11/memoized.outer-attempt-has-the-parsers-outcome");
+    });
+}
+
+/// A later attempt at a position where this parser already failed - after the parse went on elsewhere and
+/// left some other error (or none) pending: the recorded failure is replayed without running the parser
+/// again, as re-running a parser that fails the same way would report it - at its recorded position, merged
+/// with what is pending there.
+pub fn h_memoized_replay<M: VMode, Er: VEr>() {
+    run::<u8, Er, (), _>(|inp, s0| {
+        let m = anyp_multi::<I8, X<Er>>(0, 2).memoized();
+        let r1 = m.gov::<M>(inp);
+        let a = lg(inp, 0);
+        if r1.is_ok() || a.ok {
+            return;
+        }
+        let s1 = snap(inp);
+        let (p_star, id_star) = match s1.alt {
+            Some(x) => x,
+            None => return, // (C20/memoized.failure-leaves-pending-error is the first-attempt harness's)
+        };
+        // the parse goes on elsewhere: what is pending when this position is tried again is arbitrary
+        let other = ch::any_bool();
+        let q = ch::below(s0.len);
+        inp.errors.alt = if other { Some(Located::at(q, Er::mk(88, q, q))) } else { None };
+        inp.cursor = s0.pos;
+        inp.state.believed = s0.pos;
+        let nsec1 = inp.errors.secondary.len();
+        let r2 = m.gov::<M>(inp);
+        let s2 = snap(inp);
+        vcover!(other && q == p_star, "memoized: replay meets another failure at exactly the recorded position");
+        vcover!(!other, "memoized: replay with nothing pending");
+        vassert!(!lg(inp, 1).called && lg(inp, 0).calls == 1, "C11/memoized.recorded-outcome-is-not-recomputed");
+        vassert!(r2.is_err(), "C11/memoized.recorded-failure-fails-again");
+        vassert!(s2.nsec == nsec1, "C05/memoized.replayed-failure-emits-nothing");
+        vassert!(s2.alt.is_some(), "C20/memoized.replayed-failure-leaves-pending-error");
+        if !Er::ZST {
+            // the recorded error is what the first attempt left pending: the furthest of (pending at entry, the
+            // parser's offer), merged where equal; the replay offers it again
+            let _ = (p_star, id_star);
+            let exp = if other { Offers::of(&s0, &[&a]).at(q, 88) } else { Offers::of(&s0, &[&a]) };
+            vassert!(exp.matches(&s2), "C11/memoized.recorded-failure-replayed-at-its-position-and-merged-with-what-is-pending-there");
+        }
     });
 }
 
@@ -179,11 +185,21 @@ impl<Er: VEr, const SLOT: usize> Parser<'static, I8, u16, X<Er>> for ZP<Er, SLOT
 }
 /// `a.memoized().or(b.memoized())` against the contract of `a.or(b)` (h_comb::h_or), with `a`, `b`
 /// zero-sized (ZS = true) or not.
+/// memoized() applied by one shared helper to different parsers ("one `.memoized()` in the source" is not
+/// "one parser"): the two results are different memoized parsers.
+fn memo_helper<P: Parser<'static, I8, u16, X<Er>>, Er: VEr>(p: P) -> Memoized<P> {
+    p.memoized()
+}
 pub fn h_memoized_or<M: VMode, Er: VEr, const ZS: bool>() {
+    h_memoized_or_k::<M, Er, ZS, false>()
+}
+pub fn h_memoized_or_k<M: VMode, Er: VEr, const ZS: bool, const HELPER: bool>() {
     run::<u8, Er, (), _>(|inp, s0| {
-        let r = if ZS {
+        let r = if HELPER {
+            memo_helper::<_, Er>(anyp::<I8, X<Er>>(0)).or(memo_helper::<_, Er>(anyp::<I8, X<Er>>(1))).gov::<M>(inp)
+        } else if ZS {
             let p = ZP::<Er, 0>(core::marker::PhantomData).memoized().or(ZP::<Er, 1>(core::marker::PhantomData).memoized());
-            vassert!(core::mem::size_of_val(&p) == 0, "FW/memoized-or-is-zero-sized");
+            vassert!(core::mem::size_of::<ZP<Er, 0>>() == 0 && core::mem::size_of::<ZP<Er, 1>>() == 0, "FW/memoized-or-inner-parsers-are-zero-sized");
             p.gov::<M>(inp)
         } else {
             anyp::<I8, X<Er>>(0).memoized().or(anyp::<I8, X<Er>>(1).memoized()).gov::<M>(inp)
@@ -253,6 +269,7 @@ harnesses! {
     memoized_or_check = h_memoized_or::<Check, VS, false>;
     memoized_or_zero_sized_emit = h_memoized_or::<Emit, VS, true>;
     memoized_or_zero_sized_check = h_memoized_or::<Check, VS, true>;
+    memoized_or_shared_helper_emit = h_memoized_or_k::<Emit, VS, false, true>;
     memoized_twice_emit = h_memoized_twice::<Emit, VS>;
     memoized_twice_check = h_memoized_twice::<Check, VS>;
 }
